@@ -50,8 +50,12 @@ def _source_files(repo):
     return out
 
 
+PACKAGES = [x for x in os.environ.get("VERIF_PACKAGES", "").split(",") if x]
+
+
 def tree_hash(repo=REPO):
     h = hashlib.sha256()
+    h.update(("pkgs=" + ",".join(PACKAGES)).encode())
     # the engines are part of the function from tree to facts
     for extra in sorted(glob.glob(os.path.join(RSFACTS_DIR, "src", "*.rs"))
                         + glob.glob(os.path.join(DORAFACTS_DIR, "src", "*.rs"))):
@@ -115,7 +119,12 @@ def _run_rsfacts(outdir):
         env["RSFACTS_OUT"] = outdir
         env["CARGO_TARGET_DIR"] = target
         env.pop("RUSTC_WRAPPER", None)
-        r = subprocess.run(["cargo", "+nightly", "check", "--offline", "--workspace"], cwd=REPO, env=env,
+        sel = ["--workspace"]
+        if PACKAGES:
+            sel = []
+            for pk in PACKAGES:
+                sel += ["-p", pk]
+        r = subprocess.run(["cargo", "+nightly", "check", "--offline"] + sel, cwd=REPO, env=env,
                            stdout=subprocess.PIPE, stderr=subprocess.STDOUT, text=True)
         if r.returncode != 0:
             lines = r.stdout.splitlines()
@@ -163,7 +172,7 @@ def ensure_facts(verbose=True):
                 fh.write("%s\n%s" % (e.stage, e.detail))
             raise
         n = len(glob.glob(os.path.join(d, "rs", "*.json")))
-        if n < 16:
+        if n < (1 if PACKAGES else 16):
             with open(failed, "w") as fh:
                 fh.write("rsfacts\nonly %d fact files written" % n)
             raise AnalysisError("rsfacts", "only %d fact files written" % n)
@@ -173,7 +182,7 @@ def ensure_facts(verbose=True):
             print("[facts] done in %.1fs (%d rust fact files)" % (time.time() - t0, n), file=sys.stderr, flush=True)
         # prune: keep the newest three fact dirs
         dirs = sorted(glob.glob(os.path.join(CACHE, "facts-*")), key=os.path.getmtime, reverse=True)
-        for old in dirs[3:]:
+        for old in dirs[8:]:
             shutil.rmtree(old, ignore_errors=True)
         return d
     finally:
